@@ -21,6 +21,8 @@ def run(ctx):
     sa.commit_after_loop_rule(ctx, 'R7.1c')
     sa.commit_after_loop_multi_rule(ctx, 'R7.1c')
     ar.fresh_part_rule(ctx, 'R7.2')
+    ar.single_file_route_rule(ctx, 'R7.20')
+    ar.forget_then_rebuild_rule(ctx, 'R7.21')
     ar.no_remove_rename_rule(ctx, 'R7.3')
     ar.compat_checks_rule(ctx, 'R7.4')
     ar.kind_checks_rule(ctx, 'R7.4')
